@@ -1,5 +1,6 @@
 """C08 — memcpy/memmove/memset/memcmp/bcmp of tiny-start/src/symbols/mem.rs match C for every
-length, alignment and overlap, and never write outside the destination range."""
+length, alignment and overlap, never write outside the destination range and never READ outside
+`[s, s+n)` of any operand (source of the copies, both operands of the compares)."""
 from . import common as C
 
 P = 2**55 - 55          # hash modulus shared with Model/MemFns.lean and harness/c08
@@ -19,26 +20,55 @@ def H(b):
     return int.from_bytes(bytes(b), "little") % P
 
 
+PAGE = 4096
+
+
 def parse(case):
+    """-> op, size, seed, a, b, n, setups; a setup is ("@", off, val) poke, ("~", to, frm, len) copy done by the
+    harness, ("!", k) page k of the arena inaccessible while the function under test runs"""
     w = case.split()
     op, size, seed, a, b, n = w[0], int(w[1]), int(w[2]), int(w[3]), int(w[4]), int(w[5])
-    pokes = []
+    setups = []
     for t in w[6:]:
-        o, v = t[1:].split("=")
-        pokes.append((int(o), int(v)))
-    return op, size, seed, a, b, n, pokes
+        if t[0] == "@":
+            o, v = t[1:].split("=")
+            setups.append(("@", int(o), int(v)))
+        elif t[0] == "~":
+            to, frm, ln = t[1:].split(":")
+            setups.append(("~", int(to), int(frm), int(ln)))
+        else:
+            setups.append(("!", int(t[1:])))
+    return op, size, seed, a, b, n, setups
+
+
+def setup_arena(size, seed, setups):
+    ar = arena(size, seed)
+    for st in setups:
+        if st[0] == "@":
+            ar[st[1]] = st[2]
+        elif st[0] == "~":
+            ar[st[1]:st[1] + st[3]] = bytes(ar[st[2]:st[2] + st[3]])
+    return ar
 
 
 def judge(case, out):
     """the C standard's semantics, computed with Python bytes operations on the same arena"""
-    op, size, seed, a, b, n, pokes = parse(case)
-    ar = arena(size, seed)
-    for o, v in pokes:
-        ar[o] = v
+    op, size, seed, a, b, n, setups = parse(case)
+    ar = setup_arena(size, seed, setups)
     f = dict(t.split("=", 1) for t in out.split() if "=" in t)
     extra = [t for t in out.split() if "=" not in t]
     if extra or "h" not in f:
         return "abnormal: " + out[:60]
+    if "fault" in f:
+        # C: the call may access s[0..n) of its operands and nothing else.  The case put an inaccessible page right
+        # next to an operand (no operand byte lies in it) and the function under test touched it.
+        kind, off = f["fault"].split("@")
+        off = int(off)
+        ops = [("dest", a)] if op == "set" else ([("s1", a), ("s2", b)] if op in ("cmp", "bcm") else [("dest", a), ("src", b)])
+        near = min(ops, key=lambda o: min(abs(off - o[1]), abs(off - (o[1] + n))))
+        rel = off - near[1]
+        return "%s outside the operands: %s accesses arena offset %d = %s%+d with %s = [%d, %d) (n=%d), an inaccessible page; a process would die with SIGSEGV" % (
+            "store" if kind == "wr" else "load", op, off, near[0], rel, near[0], near[1], near[1] + n, n)
     if op in ("cmp", "bcm"):
         if int(f["h"]) != H(ar):
             return "%s modified memory" % op
@@ -106,6 +136,99 @@ def gen_mid(ctx, quick):
                 cases.append("mov %d %d %d %d %d" % (d + n + RZ, seed, d, d - delta, n))
             else:
                 cases.append("set %d %d %d %d %d" % (d + n + RZ, seed, d, [0, 0xFF, 0x5A, -2][(n + dm) // 4 % 4], n))
+    return cases
+
+
+def guard_layout(n):
+    """arena of 3 data regions of R pages separated by two inaccessible pages: [R pages][hole][R pages][hole][R pages].
+    -> size, setup tokens, tight-end end offset, loose-end end offset, tight-start offset, loose-start offset"""
+    R = (n + 15) // PAGE + 1
+    h1, h2 = R, 2 * R + 1
+    return (3 * R + 2) * PAGE, " !%d !%d" % (h1, h2), h1 * PAGE, h2 * PAGE, (h1 + 1) * PAGE, (h2 + 1) * PAGE
+
+
+def guard_place(n, s, role, placement):
+    """X = the TIGHT operand: ends flush against an inaccessible page (placement 'end') or starts right after one
+    ('start'); Y = the other operand, `s` bytes away from its own inaccessible page (so its misalignment relative to
+    X is s and an over-read of more than s bytes still faults).  role 0: X is the first argument (dest / s1),
+    role 1: X is the second (src / s2).  -> size, holes, first argument offset, second argument offset"""
+    size, holes, te, le, ts, ls = guard_layout(n)
+    if placement == "end":
+        x, y = te - n, le - s - n
+    else:
+        x, y = ts, ls + s
+    return (size, holes, x, y) if role == 0 else (size, holes, y, x)
+
+
+def guard_cmp(r, op, n, s, role, placement, variant, seed):
+    size, holes, a, b = guard_place(n, s, role, placement)
+    tok = " ~%d:%d:%d" % (b, a, n)                 # second operand := first operand
+    if n and variant != "eq":
+        p = {"last": n - 1, "first": 0}.get(variant)
+        if p is None:
+            p = r.below(n)
+        cur = arena(size, seed)[a + p]
+        tok += " @%d=%d" % (b + p, (cur + r.choice([1, 255, 128])) % 256)
+    return "%s %d %d %d %d %d%s%s" % (op, size, seed, a, b, n, tok, holes)
+
+
+def gen_guard(ctx, quick, nmax):
+    """READS (and writes) outside the operands: every operand in turn — destination and source of the copies, first
+    and second operand of the compares — ends flush against an inaccessible page or starts right after one, the other
+    operand at every relative misalignment, for every n of the exhaustive range and of the mid sweep.  An access
+    outside [s, s+n) towards the page faults; the harness reports it with the case as the concrete input."""
+    r = ctx.rng
+    cases = []
+    DELTAS = [1, 7, 8, 9, 63, 64, 65]
+    mid = set(range(nmax + 1, 161 if quick else 321))
+    for m in range(64, 1025, 64):
+        for dlt in (-9, -8, -7, -2, -1, 0, 1, 2, 7, 8, 9):
+            mid.add(m + dlt)
+    for n in list(range(nmax + 1)) + sorted(mid):
+        small = n <= nmax
+        for placement in ("end", "start"):
+            for role in (0, 1):
+                for s in range(16 if small else 8):
+                    seed = 1 + ((n + s) & 3)
+                    size, holes, a, b = guard_place(n, s, role, placement)
+                    alt = (n + s + role) & 1
+                    cases.append("cpy %d %d %d %d %d%s" % (size, seed, a, b, n, holes))
+                    if small:
+                        cases.append(guard_cmp(r, "cmp", n, s, role, placement, "eq", seed))
+                        cases.append(guard_cmp(r, "bcm", n, s, role, placement, "eq", seed))
+                        cases.append(guard_cmp(r, "bcm" if alt else "cmp", n, s, role, placement, "last", seed))
+                        cases.append(guard_cmp(r, "cmp" if alt else "bcm", n, s, role, placement, "rand", seed))
+                        if s < 8:
+                            cases.append("mov %d %d %d %d %d%s" % (size, seed, a, b, n, holes))
+                    else:
+                        cases.append(guard_cmp(r, "cmp" if alt else "bcm", n, s, role, placement, "eq", seed))
+                        cases.append(guard_cmp(r, "bcm" if alt else "cmp", n, s, role, placement, ["last", "rand", "first"][(n + s) % 3], seed))
+                        if alt:
+                            cases.append("mov %d %d %d %d %d%s" % (size, seed, a, b, n, holes))
+                # memmove with overlap: the other operand `delta` bytes away on the side that has room
+                size, holes, te, le, ts, ls = guard_layout(n)
+                x = te - n if placement == "end" else ts
+                for delta in (range(1, n + 3) if small else [DELTAS[(n + role) % 7], DELTAS[(n // 7 + 3) % 7]]):
+                    y = x - delta if placement == "end" else x + delta
+                    d, sr = (x, y) if role == 0 else (y, x)
+                    cases.append("mov %d %d %d %d %d%s" % (size, 1 + (n & 3), d, sr, n, holes))
+            # memset: the destination tight
+            size, holes, te, le, ts, ls = guard_layout(n)
+            x = te - n if placement == "end" else ts
+            for c in ((0, 0xA5, -1) if small else (0x5A,)):
+                cases.append("set %d %d %d %d %d%s" % (size, 1 + (n & 3), x, c, n, holes))
+    # a few large ones (multi-page operands)
+    for i in range(12 if quick else 120):
+        n = r.choice([4081, 4095, 4096, 4097, 8191, 12289, 65535, 65537, 2**18 + 3, 2**20 - 7]) if i % 2 else r.range(4096, 70000)
+        s, role, placement = r.below(16), r.below(2), r.choice(["end", "start"])
+        size, holes, a, b = guard_place(n, s, role, placement)
+        k = i % 4
+        if k == 0:
+            cases.append("cpy %d %d %d %d %d%s" % (size, 1 + i % 7, a, b, n, holes))
+        elif k == 1:
+            cases.append("mov %d %d %d %d %d%s" % (size, 1 + i % 7, a, b, n, holes))
+        else:
+            cases.append(guard_cmp(r, "cmp" if k == 2 else "bcm", n, s, role, placement, "eq" if i % 8 < 4 else "last", 1 + i % 7))
     return cases
 
 
@@ -229,6 +352,9 @@ MALFORMED = [
     "zap 100 1 0 0 0", "cpy 100 1 0 0", "cpy x 1 0 0 0", "cpy 100 1 -1 0 0", "cpy 100 1 0 -1 0", "", "cpy",
     "set 100 1 0 4294967296 1", "cpy 100 1 0 50 10 @100=1", "cpy 100 1 0 50 10 @5=256", "cpy 100 1 0 50 10 5=1",
     "cpy 99999999 1 0 50 10", "cmp 100 1 0 50 10 @5",
+    "cmp 20480 1 4000 12200 97 !1 !3", "cmp 20480 1 3000 12200 97 !1 !3", "cpy 8192 1 0 5000 10 !2", "cpy 100 1 0 50 10 ~0:95:10",
+    "cpy 100 1 0 50 10 ~95:0:10", "cpy 100 1 0 50 10 !x", "cpy 100 1 0 50 10 ~1:2", "cpy 100 1 0 50 10 ~1:2:3:4", "set 8192 1 4090 0 10 !1",
+    "cpy 8192 1 0 50 10 !1=3", "cpy 100 1 0 50 10 !",
 ]
 
 
